@@ -107,7 +107,7 @@ def shift(trace, cut, K):
     """trace lines at ticks > cut shifted back by K; Q/R lines likewise"""
     out = []
     for l in trace:
-        m = re.match(r'(@|Q@|R@)(\d+)(\+?)(.*)', l)
+        m = re.match(r'(@|Q@|R@|DM@)(\d+)(\+?)(.*)', l)
         if m:
             t = int(m.group(2))
             if t > cut:
@@ -163,8 +163,10 @@ def post(all_results, run_impl, rng, tier, stats):
             continue
         npairs += 1
         # the number of layout states is bookkeeping (a finished state is swept by the next tick that runs): not compared
-        a = [re.sub(r' nstates=\d+', '', l) for l in it]
-        b = [re.sub(r' nstates=\d+', '', l) for l in other[1]]
+        # the saved macros' recorded delays (DM lines) count ticks, not time: with the constant replay delay they are not
+        # observable and differ between a run that skips blocked ticks and one that does not; INFO lines carry tick numbers
+        a = [re.sub(r' nstates=\d+', '', l) for l in it if not l.startswith(('DM@', 'INFO '))]
+        b = [re.sub(r' nstates=\d+', '', l) for l in other[1] if not l.startswith(('DM@', 'INFO '))]
         if a != b:
             k = 0
             while k < min(len(a), len(b)) and a[k] == b[k]:
@@ -180,8 +182,8 @@ def post(all_results, run_impl, rng, tier, stats):
         it2 = res.get(v['id'])
         if not it2:
             continue
-        a = [l for l in it if not l.startswith('Q@')]
-        b = [l for l in shift(it2, cut, K) if not l.startswith('Q@')]
+        a = [l for l in it if not l.startswith(('Q@', 'DM@', 'INFO '))]
+        b = [l for l in shift(it2, cut, K) if not l.startswith(('Q@', 'DM@', 'INFO '))]
         if a != b:
             k = 0
             while k < min(len(a), len(b)) and a[k] == b[k]:
